@@ -6,27 +6,34 @@ meta.json ("caught_by_current") and in /verif/seeded/RESULTS.md.  /repo must be 
 import json, os, shutil, subprocess, sys, tempfile, time
 
 SEEDED = "/verif/seeded"
+# RERUN_TREE=<worktree of /repo>: patch that tree instead of /repo; RERUN_VERIF=<copy of /verif>: run the checks from that
+# copy (its own evidence/ and replays/), so that several reruns - and work on /repo - can go on side by side
+TREE = os.environ.get("RERUN_TREE", "/repo")
+VERIF = os.environ.get("RERUN_VERIF", "/verif")
 
 
-def run(cmd, cwd="/verif"):
-    p = subprocess.run(cmd, shell=True, cwd=cwd, stdout=subprocess.PIPE, stderr=subprocess.STDOUT, text=True)
+def run(cmd, cwd=None):
+    env = dict(os.environ)
+    if TREE != "/repo":
+        env["VERIF_REPO"] = TREE
+    p = subprocess.run(cmd, shell=True, cwd=cwd or VERIF, env=env, stdout=subprocess.PIPE, stderr=subprocess.STDOUT, text=True)
     return p.returncode, p.stdout
 
 
 def main():
     names = sys.argv[1:] or sorted(d for d in os.listdir(SEEDED) if os.path.isdir(os.path.join(SEEDED, d)))
-    rc, out = run("git -C /repo status --porcelain")
+    rc, out = run("git -C %s status --porcelain" % TREE)
     if out.strip():
-        sys.exit("refusing: /repo is not clean:\n" + out)
+        sys.exit("refusing: %s is not clean:\n" % TREE + out)
     rows = []
     # the checks rewrite /verif/evidence/<id>.json: keep the evidence of the unchanged tree
     keep = tempfile.mkdtemp(prefix="evidence-keep-")
-    shutil.copytree("/verif/evidence", os.path.join(keep, "evidence"))
+    shutil.copytree(VERIF + "/evidence", os.path.join(keep, "evidence"))
     try:
         rows = _all(names)
     finally:
-        shutil.rmtree("/verif/evidence", ignore_errors=True)
-        shutil.copytree(os.path.join(keep, "evidence"), "/verif/evidence")
+        shutil.rmtree(VERIF + "/evidence", ignore_errors=True)
+        shutil.copytree(os.path.join(keep, "evidence"), VERIF + "/evidence")
         shutil.rmtree(keep, ignore_errors=True)
     # the table always lists every seed: the latest recorded run of each (this invocation's or an earlier one's)
     allrows = []
@@ -45,9 +52,9 @@ def main():
         f.write("# Seeded changes against the quick checks (written by tools/rerun_seeds.py)\n\n| seed | caught by | runs |\n|---|---|---|\n")
         for r in allrows:
             f.write("| %s | %s | %s |\n" % r)
-    rc, out = run("git -C /repo status --porcelain")
+    rc, out = run("git -C %s status --porcelain" % TREE)
     if out.strip():
-        sys.exit("/repo left dirty:\n" + out)
+        sys.exit("%s left dirty:\n" % TREE + out)
 
 
 def _all(names):
@@ -57,7 +64,7 @@ def _all(names):
         meta = json.load(open(os.path.join(d, "meta.json")))
         pid = name.split("-")[0]
         checks = [pid] + [c for c in meta.get("also_check", []) if c != pid]
-        rc, out = run("git -C /repo apply %s/patch.diff" % d)
+        rc, out = run("git -C %s apply %s/patch.diff" % (TREE, d))
         if rc:
             rows.append((name, "patch does not apply any more", ""))
             continue
@@ -69,7 +76,7 @@ def _all(names):
                 res[c] = {"rc": rcc, "wall_s": round(time.time() - t, 1),
                           "first_violation": next((l for l in o.splitlines() if l.startswith("VIOLATION")), None)}
         finally:
-            run("git -C /repo checkout -- .")
+            run("git -C %s checkout -- ." % TREE)
         meta["caught_by_current"] = [c for c, r in res.items() if r["rc"] == 1]
         meta["current_run"] = res
         json.dump(meta, open(os.path.join(d, "meta.json"), "w"), indent=1)
